@@ -476,6 +476,19 @@ theorem btc_selection_is_filter (m : List (Nat × Status)) (d : List Nat) (hd : 
 theorem lookup_faithful (source destination nonce : Nat) (a : Ans) :
     PLookup source nonce a (lookupQuery source destination nonce) (lookupAnswer a) := ⟨rfl, rfl, rfl⟩
 
+/-- what is submitted for a session is what was signed in it; together with P03: a proposal reported executed (or,
+    BTC, recorded executed / in flight) is in no session and therefore in no submission -/
+theorem submit_is_signed (signed : List Nat) : PSubmit signed (submitted signed) := rfl
+
+theorem never_submitted (e : Bool) (w : List Nat) (ss : List (List Nat)) (h : P03 e w ss) (n : Nat)
+    (hn : n ∈ (ss.map submitted).flatten.flatten) : n ∈ w := by
+  apply signed_is_wanted e w ss h n
+  simp only [List.mem_flatten, List.mem_map, submitted] at hn ⊢
+  obtain ⟨l, ⟨l1, ⟨a, ha, rfl⟩, hl⟩, hnl⟩ := hn
+  simp only [List.mem_singleton] at hl
+  subst hl
+  exact ⟨l, ha, hnl⟩
+
 /-! #### histories -/
 
 theorem hasErr_answersFrom (ex : List Nat) (f : Option Nat) (i : Nat) (ns : List Nat) :
